@@ -78,3 +78,18 @@ def check(case, ctx):
 
 def sample(case, res):
     return gen.render(case)
+
+
+def _sig_nonincr(case, res):
+    from . import sigs
+    d = res.detail or {}
+    return d.get("incremental") == "sat" and d.get("fresh") == "unsat" and sigs.nonincr_second_check(case, d.get("cmd_index"))
+
+
+def _sig_la_deep(case, res):
+    from . import sigs
+    d = res.detail or {}
+    return d.get("incremental") == "sat" and d.get("fresh") == "unsat" and sigs.lookahead_deep(case, d.get("cmd_index"))
+
+
+SIGNATURES = {"non-incremental-second-check-sat": _sig_nonincr, "lookahead-three-assertion-levels": _sig_la_deep}
